@@ -8,7 +8,8 @@ from pyvc.contract import fn, cls
 
 Q = "util/queue.py::Queue."
 cls("Queue", fields={"maxsize": "int", "queue": "deque", "use_lifo": "bool", "mutex": "v", "not_empty": "v", "not_full": "v",
-                     "_g_clock": "int"},     # ghost: the monotonic clock read by _time()
+                     "_g_clock": "int",      # ghost: the monotonic clock read by _time()
+                     "_g_mine": "setv"},     # ghost: items owned by the current thread -- no other thread ever puts them
     rep=["self.maxsize <= 0 or len(self.queue) <= self.maxsize"],
     methods={n: Q + n for n in ["_qsize", "_empty", "_full", "_put", "_get", "put", "get", "qsize"]})
 
@@ -28,7 +29,13 @@ fn(Q + "qsize", cls="Queue", props=["C25"], returns="int", ensures=["result == l
 
 # Condition.wait(): other threads may change the queue while the lock is released; on return the monitor (rep) invariant holds
 fn(Q + "__wait__", abstract=True, cls="Queue", params=["self"], returns="none", modifies=["contents(self.queue)", "self._g_clock"],
-   ensures=["self._g_clock >= old(self._g_clock)"],
+   ensures=["self._g_clock >= old(self._g_clock)",
+            # rely: the other users of this queue keep it duplicate free if it was (they follow the pool's own contract)
+            "implies(old(no_dups(contents(self.queue))), no_dups(contents(self.queue)))",
+            # rely: nobody else puts an item this thread owns
+            "forall(lambda x: implies(x in self._g_mine and x not in old(contents(self.queue)), x not in contents(self.queue)))",
+            # whatever is in the queue exists (items put by other threads were created by them first)
+            "implies(old(all(allocated(x) for x in contents(self.queue))), all(allocated(x) for x in contents(self.queue)))"],
    notes="Condition.wait: releases the monitor; any other thread may have put/got; the representation invariant holds on return; "
          "it may return at any time (notified and overtaken, or spuriously): time only moves forward")
 fn(Q + "__time__", abstract=True, cls="Queue", params=["self"], returns="int", modifies=["self._g_clock"],
@@ -54,9 +61,15 @@ fn(Q + "get", cls="Queue", props=["C25"],
              dict(name="blocking-timeout", requires=["block", "timeout is not None"], types={"timeout": "int"},
                   may_raise={"Empty": "True", "ValueError": "timeout < 0"})],
    callees={"self.not_empty.wait": dict(fn=Q + "__wait__", recv="self", args=[]), "self.not_full.notify": "noop", "_time": dict(fn=Q + "__time__", recv="self", args=[])},
-   exc_ensures={"Empty": [GAVE_UP]},
+   invariant={0: ["implies(old(no_dups(contents(self.queue))), no_dups(contents(self.queue)))", "forall(lambda x: implies(x in self._g_mine and x not in old(contents(self.queue)), x not in contents(self.queue)))", "implies(old(all(allocated(x) for x in contents(self.queue))), all(allocated(x) for x in contents(self.queue)))"], 1: ["implies(old(no_dups(contents(self.queue))), no_dups(contents(self.queue)))", "forall(lambda x: implies(x in self._g_mine and x not in old(contents(self.queue)), x not in contents(self.queue)))", "implies(old(all(allocated(x) for x in contents(self.queue))), all(allocated(x) for x in contents(self.queue)))"]},
+   exc_ensures={"Empty": [GAVE_UP] + ["implies(old(no_dups(contents(self.queue))), no_dups(contents(self.queue)))", "forall(lambda x: implies(x in self._g_mine and x not in old(contents(self.queue)), x not in contents(self.queue)))", "implies(old(all(allocated(x) for x in contents(self.queue))), all(allocated(x) for x in contents(self.queue)))"]},
    ensures=["implies(not block, ite(self.use_lifo, result is old(contents(self.queue))[-1] and contents(self.queue) == old(contents(self.queue))[:-1],"
-            " result is old(contents(self.queue))[0] and contents(self.queue) == old(contents(self.queue))[1:]))"],
+            " result is old(contents(self.queue))[0] and contents(self.queue) == old(contents(self.queue))[1:]))",
+            # what is taken out of a duplicate-free queue is not in the queue any more (in every blocking mode)
+            "implies(old(no_dups(contents(self.queue))), no_dups(contents(self.queue)) and result not in contents(self.queue))",
+            "forall(lambda x: implies(x in self._g_mine and x not in old(contents(self.queue)), x not in contents(self.queue)))",
+            # an item comes out of the queue: it was put by somebody, so it is allocated; and (rely) nobody puts what this thread owns
+            "implies(old(all(allocated(x) for x in contents(self.queue))), all(allocated(x) for x in contents(self.queue)))", "implies(old(all(allocated(x) for x in contents(self.queue))), allocated(result))", "implies(old(no_dups(contents(self.queue))) and forall(lambda x: implies(x in self._g_mine, x not in old(contents(self.queue)))), result not in self._g_mine)"],
    modifies=["contents(self.queue)", "self._g_clock"])
 # callers see the union of the variants' exceptional behaviour
 from pyvc.contract import FUNCS as _F
@@ -136,3 +149,46 @@ fn(P + "_do_get", cls="QueuePool", props=["C25", "C26"], returns="_ConnectionRec
    exc_ensures={"BaseException": G + ["self.mine == old(self.mine)"]},
    modifies=SHARED,
    notes="partial correctness: the recursive calls are checked against this same contract")
+
+
+# ------------------------------------------------------------------ no record is handed to two holders (thread-modular)
+# Ghost `_pool._g_mine` (a set value, thread-local like `mine`): the records the current thread has got from _do_get and not yet
+# given back ("held").  Monitor invariant (assumed at every interference point, proved before each and at every exit):
+#   U1  the idle queue holds no record twice          U2  no record held by this thread is in the idle queue
+# Rely (assumed contract of Condition.wait, i.e. of the other threads): they keep the queue duplicate free and never put a record
+# this thread holds.  Every thread follows the same contract, so a record is either idle in the queue (once) or held by exactly
+# one thread: it is never handed to a second holder.  Ghost updates happen atomically with the queue operation (ghost_call).
+HELD = "self._pool._g_mine"
+QC = "contents(self._pool.queue)"
+U = ["no_dups(" + QC + ")", "forall(lambda r: implies(r in " + HELD + ", r not in " + QC + "))", "all(allocated(r) for r in " + QC + ")"]
+MONU = dict(havoc=[QC, "self._pool._g_clock", "self._overflow"], inv=U, locks=["self._overflow_lock"],
+            calls=["self._pool.get", "self._pool.put", "self._create_connection", "record.close"])
+fn("pool/base.py::Pool._create_connection@u", abstract=True, cls="QueuePool", params=["self"], returns="_ConnectionRecord", fresh_result=True,
+   modifies=[], may_raise={"BaseException": "True"}, notes="a brand-new record (not in the queue, not held by anybody)")
+fn("pool/base.py::_ConnectionRecord.close@u", abstract=True, cls="_ConnectionRecord", params=["self"], returns="none", modifies=[],
+   may_raise={"Exception": "True"})
+fn(P + "_do_get#unique", cls="QueuePool", props=["C25"], returns="_ConnectionRecord", monitor=MONU,
+   types={"use_overflow": "bool", "wait": "bool"},
+   requires=U,
+   callees={"self._pool.get": Q + "get", "self._do_get": P + "_do_get#unique", "self._inc_overflow": "havoc:bool", "self._dec_overflow": "havoc:bool",
+            "self._create_connection": "pool/base.py::Pool._create_connection@u", "self.size": "havoc:int", "self.overflow": "havoc:int"},
+   ghost_call={"self._pool.get": [HELD + " = " + HELD + " | {_r}"], "self._create_connection": [HELD + " = " + HELD + " | {_r}"]},
+   ensures=U + ["result in " + HELD, "result not in " + QC,
+                # the record handed out was not held by this thread before, and exactly it is added
+                "not old(result in " + HELD + ")",
+                "forall(lambda r: (r in " + HELD + ") == (old(r in " + HELD + ") or r is result))"],
+   may_raise={"TimeoutError": "True", "BaseException": "True"},
+   exc_ensures={"BaseException": U + ["forall(lambda r: (r in " + HELD + ") == old(r in " + HELD + "))"]},
+   modifies=[QC, HELD, "self._pool._g_clock", "self._overflow"],
+   notes="partial correctness: the recursive call is checked against this same contract")
+fn(P + "_do_return_conn#unique", cls="QueuePool", props=["C25"], returns="none", monitor=MONU,
+   types={"record": "_ConnectionRecord"},
+   # only a record this thread holds may be given back
+   requires=U + ["record in " + HELD],
+   callees={"self._pool.put": Q + "put", "self._dec_overflow": "havoc:bool",
+            "record.close": dict(fn="pool/base.py::_ConnectionRecord.close@u", recv="record", args=[])},
+   ghost_call={"self._pool.put": [HELD + " = " + HELD + " - {record}"], "record.close": [HELD + " = " + HELD + " - {record}"]},
+   ensures=U + ["record not in " + HELD, "forall(lambda r: implies(r is not record, (r in " + HELD + ") == old(r in " + HELD + ")))"],
+   may_raise={"Exception": "True"},
+   exc_ensures={"Exception": U},
+   modifies=[QC, HELD, "self._pool._g_clock", "self._overflow"])
